@@ -85,9 +85,16 @@ def _build(np, case, root):
     else:
         cfg = shardlib.gen_config(rnd, "quick")
     cfgs = [cfg, dict(cfg)]
-    # second scale: other grid, same sharding parameters (same shard numbers occur again)
+    # second scale: other grid, same sharding parameters (same shard numbers occur again) -
+    # or, in a third of the datasets, sharding parameters of its own (sharding is a
+    # property of each scale; optional members may be left out in one scale only)
     cfgs[1]["grid"] = [max(1, g // 2) for g in cfg["grid"]]
     cfgs[1]["rem"] = [0, 0, 0]
+    if "directed_cfg" not in case and rnd.random() < 0.35:
+        other = shardlib.gen_config(rnd, "quick")
+        for k in ("minishard_bits", "shard_bits", "preshift_bits", "minishard_index_encoding",
+                  "data_encoding", "omit_default_keys"):
+            cfgs[1][k] = other[k]
     scales = []
     for i, c in enumerate(cfgs):
         sc = shardlib.info_of(c, key=f"s{i}", sharded=kind in ("shard", "legacy")
@@ -131,8 +138,8 @@ def _build(np, case, root):
         if hasattr(acc, "close"):
             acc.close()
     if kind == "legacy":
-        n = 16 * (1 << cfg["minishard_bits"])
         for i in range(2):
+            n = 16 * (1 << cfgs[i]["minishard_bits"])
             sd = os.path.join(d, f"s{i}")
             for fn in os.listdir(sd):
                 p = os.path.join(sd, fn)
@@ -193,16 +200,21 @@ def run_case(case):
             obs["local_reference_failed"] = 1
             obs["local_reference_error"] = [f"{type(exc).__name__}: {str(exc)[:80]}"]
         # the same directory is also served under names that need percent-escapes in a URL
-        srv.httpd.aliases = {"my data": "ds", "donn\u00e9es+v1": "ds"}
+        srv.httpd.aliases = {"my data": "ds", "donn\u00e9es+v1": "ds", "brain.sharded": "ds",
+                             "v1.shard.d": "ds"}
         # the fault scripts run against a URL with user information (a token, no password)
         # for a third of the datasets
         fault_url = f"{srv.base}/ds"
         if case["dseed"] % 3 == 0:
             fault_url = srv.base.replace("http://", "http://t0ken@") + "/ds"
             obs["fault_runs_on_a_url_with_user_information"] = 1
+        elif case["dseed"] % 3 == 1:
+            fault_url = f"{srv.base}/ds?access_token=abc123"
+            obs["fault_runs_on_a_url_with_a_query_string"] = 1
         for url in (f"{srv.base}/ds", f"{srv.base}/ds/", f"precomputed://{srv.base}/ds",
                     f"{srv.base}/my%20data", f"{srv.base}/donn%C3%A9es%2Bv1/",
                     f"{srv.base}/ds?rev=3", f"{srv.base}/ds/#top",
+                    f"{srv.base}/brain.sharded", f"{srv.base}/v1.shard.d/",
                     srv.base.replace("http://", "http://t0ken@") + "/ds"):
             obs["url_spellings"] += 1
             obs["percent_escaped_urls"] = obs.get("percent_escaped_urls", 0) + ("%" in url)
@@ -344,7 +356,7 @@ def run_case(case):
                                   "detail": f"{ctx} chunk {ch}: {mode!r} on HEAD probes: "
                                   f"fetch_chunk returned {len(outcome[1])} different bytes"})
                 h = accessor_mod.get_accessor_for_url(fault_url)
-                srv.arm(mode, "/ds/info", methods=("HEAD",))
+                srv.arm(mode, "/ds/info", methods=("HEAD", "GET"))
                 try:
                     ex = h.file_exists("info")
                     outcome = ("returned", ex)
